@@ -96,7 +96,8 @@ def isInstance (v : Val) (t : String) : Bool :=
   | .scalar (.float _) => t == "float"
   | .scalar (.str _) => t == "str"
   | .npScalar dt s =>
-      t == dt || (dt == "float64" && t == "float") || (match s with | .str _ => t == "str" | _ => false)
+      -- NumPy scalar types are named "np.<dtype>" in the type universe; np.float64 subclasses float
+      t == "np." ++ dt || (dt == "float64" && t == "float") || (match s with | .str _ => t == "str" | _ => false)
   | .path _ => t == "Path" || t == "PosixPath"
   | .ndarray .. => t == "ndarray"
   | .torch .tensor _ _ => t == "Tensor"
@@ -118,7 +119,7 @@ def isInstance (v : Val) (t : String) : Bool :=
 def exactType (v : Val) (t : String) : Bool :=
   match v with
   | .scalar (.bool _) => t == "bool"
-  | .npScalar dt _ => t == dt
+  | .npScalar dt _ => t == "np." ++ dt
   | .path _ => t == "PosixPath"
   | .torch .parameter _ _ => t == "Parameter"
   | .torch .module cls _ => t == cls
